@@ -1333,3 +1333,29 @@ func specJSONEarly(t reflect.Type) bool {
 //@   opt puremethods Kind Key Elem Implements NumField Field
 //@   panics allowed
 //@   ensures[C09] result == nil && t.Kind() == reflect.Map && !specJSONEarly(t) && !slices.Contains(types, t) ==> specMapKeyOK(t.Key())
+
+// ---------------------------------------------------------------------------
+// C18, expand: a file that cannot be loaded for an `extends` or a `render`
+// (without default) is a build error of the referring file - a positioned
+// syntax error, a cycle error, or the loader's own error - and never the bare
+// sentinel os.ErrNotExist, which the callers one level up read as "the file I
+// asked for does not exist" (and a `render ... default` or an import then
+// silently falls back).
+// ---------------------------------------------------------------------------
+
+//@ clause (*templateExpansion).expand/case *ast.Extends
+//@   props X00 C18
+//@   opt track parseNodeFile
+//@   opt stable templateExpansion
+//@   panics allowed
+//@   requires pp != nil && len(pp.paths) > 0
+//@   ensures[C18] called("parseNodeFile") && lastErr("parseNodeFile") != nil ==> result != nil
+//@   ensures[C18] called("parseNodeFile") && lastErr("parseNodeFile") != nil ==> result != os.ErrNotExist
+
+//@ clause (*templateExpansion).expand/case default
+//@   props X00 C18
+//@   opt track parseNodeFile
+//@   opt stable templateExpansion
+//@   panics allowed
+//@   requires pp != nil && len(pp.paths) > 0
+//@   ensures[C18] called("parseNodeFile") && lastErr("parseNodeFile") != nil && result != nil ==> result != os.ErrNotExist
